@@ -267,11 +267,19 @@ func TestC03(t *testing.T) {
 				ex = append(ex, ttmlTime{Form: "offset", Int: "7", Dec: fr, Metric: metric})
 			}
 		}
+		// offsets with more than three fraction digits (the grammar sets no limit)
+		for _, dec := range []string{"0001", "0004", "0005", "00049", "9999", "5000", "12345", "123456", "999999", "0000001", "1234567", "123456789", "000000001"} {
+			for _, metric := range []string{"h", "m", "s", "ms"} {
+				for _, in := range []string{"0", "1", "7", "59"} {
+					ex = append(ex, ttmlTime{Form: "offset", Int: in, Dec: dec, Metric: metric})
+				}
+			}
+		}
 		for _, p := range pool {
 			ex = append(ex, ttmlTime{Form: "clock", H: p.h, M: p.m, S: p.s})
 		}
 		run(0, ex)
-		ev.Note("exhaustive-timeforms", fmt.Sprintf("%d time expressions: every frame number below the rate (24,25,30,50,60) x 7 h:m:s values, Nf offsets, every 1-3 digit fraction in clock time and in h/m/s/ms offsets, clock times without fraction", n))
+		ev.Note("exhaustive-timeforms", fmt.Sprintf("%d time expressions: every frame number below the rate (24,25,30,50,60) x 7 h:m:s values, Nf offsets, every 1-3 digit fraction in clock time and in h/m/s/ms offsets, 13 fractions of 4-9 digits in h/m/s/ms offsets, clock times without fraction", n))
 	})
 
 	rapidCheck(t, "C03/read", tier(2500, 1500000), func(rt *rapid.T) {
